@@ -97,7 +97,8 @@ def _int_only(h):
     from .solve import subterms
     for s in subterms([h]):
         k = s.sort().kind()
-        if k == z3.Z3_REAL_SORT or k == z3.Z3_ARRAY_SORT: return False
+        if k == z3.Z3_REAL_SORT: return False
+        if k == z3.Z3_ARRAY_SORT and s.sort().range().kind() != z3.Z3_INT_SORT: return False
         if z3.is_quantifier(s): return False
     return True
 
@@ -194,7 +195,7 @@ class Engine:
                     raise E2Error('sequence nesting deeper than two: %s' % t)
                 lens = fresh(name + '.lens', z3.ArraySort(z3.IntSort(), z3.IntSort()))
                 k = z3.Int('k!len')
-                st.assume(Quant('k', z3.IntVal(0), n, (lambda kk, lens=lens: z3.Select(lens, kk) >= 0), 'row lengths non-negative'))
+                st.assume(Quant('k', z3.IntVal(0), n, (lambda kk, lens=lens: z3.And(z3.Select(lens, kk) >= 0, z3.Select(lens, kk) <= 2 ** 31)), 'row lengths within [0, 2^31]'))
                 return Seq(et, fresh(name, zsort(t)), n, lens)
             if et.startswith('rec:') or et.startswith('pair<'):
                 return Seq(et, None, n)      # opaque elements
@@ -268,11 +269,10 @@ class Engine:
     # ------------------------------------------------------------ obligations
     def oblige(self, st, goal, kind, text, skolems=()):
         if isinstance(goal, Quant):
-            k = fresh(goal.var + '!sk', z3.IntSort())
-            hy = list(st.pc) + [goal.lo <= k, k < goal.hi]
-            if goal.guard is not None: hy.append(goal.guard)
-            g = goal.fn(k)
-            skolems = tuple(skolems) + (k,)
+            ks = [fresh(v + '!sk', z3.IntSort()) for v in goal.vars]
+            hy = list(st.pc) + [goal.range_cond(*ks)]
+            g = goal.fn(*ks)
+            skolems = tuple(skolems) + tuple(ks)
             hyps = hy
         else:
             g = goal; hyps = list(st.pc)
@@ -319,7 +319,9 @@ class Engine:
         if not isinstance(b, Seq): raise E2Error('index of non-sequence')
         self.oblige(st, z3.And(i >= 0, i < b.n), 'bounds', 'index %s within [0, len(%s))' % (IR.pp_expr(e.idx), IR.pp_expr(e.base)))
         if b.arr is None: raise E2Error('read of opaque sequence element')
-        return b.at(i)
+        r = b.at(i)
+        if isinstance(r, Seq): st.assume(z3.Implies(z3.And(i >= 0, i < b.n), z3.And(r.n >= 0, r.n <= 2 ** 31)))
+        return r
 
     def e_len(self, e, st):
         b = self.ev(e.seq, st)
@@ -377,7 +379,7 @@ class Engine:
 
     def _guard(self, q, c):
         g = c if q.guard is None else z3.And(c, q.guard)
-        return Quant(q.var, q.lo, q.hi, q.fn, q.text, g)
+        return Quant.multi(q.vars, q.rangefn, q.fn, q.text, g)
 
     def has_call(self, e):
         if e.k == 'call' and e.kind in ('user', 'callback'): return True
@@ -658,7 +660,9 @@ class Engine:
         if e.k == 'index':
             b = self.ev_nocheck(e.base, st); i = self.ev(e.idx, st)
             self.oblige(st, z3.And(i >= 0, i < b.n), 'bounds', 'index %s within [0, len(%s))' % (IR.pp_expr(e.idx), IR.pp_expr(e.base)))
-            return b.at(i)
+            r = b.at(i)
+            if isinstance(r, Seq): st.assume(z3.Implies(z3.And(i >= 0, i < b.n), z3.And(r.n >= 0, r.n <= 2 ** 31)))
+            return r
         if e.k == 'call' and e.kind == 'user' and getattr(e, 'ret_ref', False):
             return self.ev_nocheck(self.ref_call(e, st), st)
         return self.ev(e, st)
@@ -829,22 +833,31 @@ class Engine:
     def clause_vals(self, x, st, bound=None):
         """evaluate a clause into a list of z3 formulas / Quant objects (top-level conjuncts)"""
         out = []
+        st_live = st
+        st = st.clone()          # closures below are evaluated lazily: freeze the environment now
+        st.env = dict(st_live.env)
         for c in self.clause_conjuncts(x):
             guard = None; body = c
             if c.k == 'bin' and c.op == '==>' and c.r.k == 'forall':
                 guard = self.sv(c.l, st, bound); body = c.r
             if body.k == 'forall':
-                lo = self.sv(body.lo, st, bound); hi = self.sv(body.hi, st, bound)
-                def fn(kk, body=body, st=st, bound=bound):
-                    b2 = dict(bound or {}); b2[body.var] = kk
-                    s2 = st.clone()
-                    v = self.sv(body.body, s2, b2)
-                    extra = s2.pc[len(st.pc):]
-                    if extra: v = z3.And(v, *[h for h in extra if not isinstance(h, Quant)]) if False else v
-                    return v
-                out.append(Quant(body.var, lo, hi, fn, SP.show(c), guard))
+                chain = [body]
+                while chain[-1].body.k == 'forall': chain.append(chain[-1].body)
+                inner = chain[-1].body
+                names = [q.var for q in chain]
+                def rangefn(*ks, chain=chain, st=st, bound=bound, names=names):
+                    b2 = dict(bound or {}); cs = []
+                    for q, k in zip(chain, ks):
+                        lo = self.sv(q.lo, st, b2); hi = self.sv(q.hi, st, b2)
+                        cs.append(z3.And(lo <= k, k < hi)); b2[q.var] = k
+                    return z3.And(*cs) if len(cs) > 1 else cs[0]
+                def fn(*ks, inner=inner, st=st, bound=bound, names=names):
+                    b2 = dict(bound or {})
+                    for n_, k in zip(names, ks): b2[n_] = k
+                    return self.sv(inner, st.clone(), b2)
+                out.append(Quant.multi(names, rangefn, fn, SP.show(c), guard))
             else:
-                out.append(self.sv(c, st, bound))
+                out.append(self.sv(c, st_live, bound))
         return out
 
     def assume_clause(self, x, st, bound=None):
@@ -923,6 +936,8 @@ class Engine:
             else: raise E2Error('contract of %s needs an assigns clause' % f.qual)
         for tgt in assigns:
             self.havoc_target(tgt, cs, f)
+        if ctor_self is not None:
+            cs.env['self'] = self.fresh_val('rec:' + f.self_rec, 'new.' + f.self_rec, cs)
         res = None
         if f.ret != 'void':
             res = self.fresh_val(f.ret, 'ret.' + f.name, cs)
@@ -1392,7 +1407,7 @@ class Verifier(Engine):
                     args = list(e.args)
                     if getattr(e, 'method', False):
                         o = args.pop(0)
-                        if not f.is_const:
+                        if not f.is_const and not (f.ret_ref and self.is_accessor(f)):
                             sp = self.spec_of(e.fn)
                             if sp is not None and sp.assigns is not None and o.k == 'var':
                                 for t in sp.assigns:
@@ -1406,6 +1421,12 @@ class Verifier(Engine):
             if isinstance(v, IR.E): self.mod_expr(v, acc)
             elif isinstance(v, list):
                 for a in v: self.mod_expr(a, acc)
+
+    def is_accessor(self, f):
+        """reference-returning member without assignments (operator[]): a read unless it is an assignment target"""
+        for s_ in walk_stmts(f.body):
+            if s_.k in ('assign', 'loop', 'callstmt'): return False
+        return True
 
     def havoc_mod(self, mod, st):
         for key, how in mod.items():
@@ -1550,6 +1571,9 @@ class Verifier(Engine):
             n_before = len(self.obligations)
             paths = self.exec_block(f.body, st)
             nret = 0; nexit = 0
+            self.reach = getattr(self, 'reach', [])
+            if mode == 'accept':
+                self.reach.append((self.prefix, [list(p.pc) for p, status, rv in paths if status != 'exit'][:6]))
             for p, status, rv in paths:
                 if status == 'exit':
                     nexit += 1
@@ -1561,6 +1585,7 @@ class Verifier(Engine):
                     self.oblige(p, z3.BoolVal(False), 'no_normal_return', 'a meaningless request (%s) never returns normally' % fs.exits_iff.text)
                     continue
                 p.scope = None
+                if rv is not None and f.ret_ref: self.ev(rv, p)      # the returned reference designates an element inside the object
                 if rv is not None and not f.ret_ref: p.env['result'] = rv
                 for u in fs.uses_post: self.use_lemma(u, p)
                 for cl in fs.ensures:
@@ -1662,6 +1687,18 @@ class Verifier(Engine):
                 if isinstance(h, Quant): continue
                 s.add(h)
             if s.check() == z3.unsat: bad.append(prefix)
+        # the end of the function must be reachable under the preconditions (some path is satisfiable)
+        for prefix, pcs in getattr(self, 'reach', []):
+            if not pcs:
+                bad.append(prefix + ' (no terminating path)'); continue
+            ok = False
+            for pc in pcs:
+                s = z3.Solver(); s.set('timeout', 3000)
+                for h in pc:
+                    if isinstance(h, Quant): continue
+                    s.add(h)
+                if s.check() != z3.unsat: ok = True; break
+            if not ok: bad.append(prefix + ' (end unreachable: contradictory path conditions)')
         return bad
 
     # ------------------------------------------------------------ relational goals (two runs of one function)
